@@ -8,7 +8,7 @@ TRANSLATOR = []
 COQ_EXEC = ['exec.X_perdict']
 COQ_IMPORTS = 'From PB Require Import model.M_join model.M_perdict.\n'
 COQ_PRELUDE = ''
-PER_FILE = 500
+PER_FILE = 300
 CASE_TIMEOUT = 20
 RULE = ('cases: 1-4 named inputs, each a scalar or a unique-key table over 1 or 2 key columns (`on` in any order, table columns in any order; keys from a small universe of strings / ints / '
         'floats / None so that overlap, disjointness and emptiness all occur; 1 vs 1.0 across tables), value column named after the input, '
@@ -255,7 +255,9 @@ def impl(case):
         if not isinstance(r, dict) or isinstance(r, dictable) or list(r.keys()) != list(outs) and sorted(r.keys()) != sorted(outs):
             return {'status': 'ok', 'obs': ['ERR', 'shape'], 'viol': 'a function with outputs %s must return one entry per output, got %r' % (outs, type(r).__name__)}
         vals = [r[o] for o in outs]
-        if all(v is inputs.get(o) for o, v in zip(outs, vals)):
+        if case_scalar and not any(isinstance(v, dictable) for v in vals):
+            res = ['dscalar', [obs_pv(v) for v in vals]]          # f's own record (a None result is not the empty-join answer)
+        elif all(v is inputs.get(o) for o, v in zip(outs, vals)):
             res = ['dempty', ['None' if v is None else [[obs_key([v[c][i] for c in on]), obs_pv(v[dcol(v, on)][i])] for i in range(len(v))] for v in vals]]
         elif all(isinstance(v, dictable) for v in vals):
             tabs = []
@@ -474,5 +476,5 @@ def gen_cases(rng, tier):
     cases = [rand_case(rng) for _ in range(2500 if q else 30000)]
     ex = exhaustive()
     cases.extend(rng.sample(ex, 600) if q else ex)
-    cases.extend(large_case(rng) for _ in range(8 if q else 60))
+    cases.extend(large_case(rng) for _ in range(5 if q else 60))
     return cases
